@@ -1021,7 +1021,7 @@ def proof_decisions(ctx, se):
         ok, why = whole_value_type(ctx.fb, c["self_ty"])
         same = c["rhs_ty"] is None or c["rhs_ty"].s == c["self_ty"].s
         g = compare_gate(ctx, se, c)
-        out.append({"ops": [canon(ctx, se, a) for a in c["args"]], "whole": (ok and same, why), "bb": c["bb"], "eq_edge": g[1] if g else None, "ne_edge": g[2] if g else None, "err_fields": None, "via": "inline", "term": c["term"], "op": c["op"]})
+        out.append({"ops": [canon(ctx, se, resolve_locals(se, c["bb"], a)) for a in c["args"]], "whole": (ok and same, why), "bb": c["bb"], "eq_edge": g[1] if g else None, "ne_edge": g[2] if g else None, "err_fields": None, "via": "inline", "term": c["term"], "op": c["op"]})
     inline_bbs = {d["bb"] for d in out}
     for bb, info in se.term_info.items():
         if info.get("k") != "call" or info["name"] not in ctx.fb.bodies or bb in inline_bbs:
